@@ -34,7 +34,7 @@ ASSUMPTIONS = [
     "a domain's distribution P^k is the observational joint of its own (policy-modified) model",
 ]
 BUDGET = {
-    "quick": dict(examples=150, shards=16, seconds=200),
+    "quick": dict(examples=400, shards=16, seconds=200),
     "thorough": dict(examples=3000, shards=16, seconds=2400),
 }
 ESSENTIAL_LABELS = {t: ["mode:unconditional", "mode:conditional", "answered", "fail", "transported-from-source", "factors>=2"] for t in ("quick", "thorough")}
